@@ -43,8 +43,10 @@ pub fn claims(stream: &[Elt], max_distance: f32, min_votes: usize) -> BTreeMap<(
         .collect()
 }
 
+/// two weights are treated as tied only when they differ by no more than f64 summation rounding: every term
+/// (max seen - d) is an exact f32 value, so distinct claims differ by at least ~1e-8 relative
 pub fn near(a: f64, b: f64) -> bool {
-    (a - b).abs() <= 1e-6 * (a.abs().max(b.abs())).max(1e-9)
+    (a - b).abs() <= 1e-12 * (a.abs().max(b.abs())).max(1e-9)
 }
 
 /// Result of checking a Hungarian (SortVoting) outcome against the exact optimum.
